@@ -243,6 +243,8 @@ func TestVerifC02(t *testing.T) {
 		c02Tsys("async-tdc-tcp-c2-seq2-idwrap", tOpt{Kind: "tdc-tcp", Callers: 2, Seq: 2, Srv: srvOpt{Reorder: true}, StartQid: 0xFFFF, RewindQid: true, CtxMode: []int{1, 1}}, p2),
 		c02Tsys("async-tdc-tcp-c2-seq2-abandon", tOpt{Kind: "tdc-tcp", Callers: 2, Seq: 2, Srv: srvOpt{Reorder: true}, CtxMode: []int{2, 1}}, p2),
 		c02Tsys("async-tdc-udp-c3-reorder", tOpt{Kind: "tdc-udp", Callers: 3, Srv: srvOpt{Reorder: true, Dup: 1}, CtxMode: []int{1, 1, 1}}, pp2),
+		c02Tsys("async-tdc-udp-c1-slow1300ms", tOpt{Kind: "tdc-udp", Callers: 1, Srv: srvOpt{AnswerAll: true, Delay: 1300 * time.Millisecond}, CtxMode: []int{1}}, p1),
+		c02Tsys("async-pipeline-udp-c2-slow1300ms", tOpt{Kind: "pipeline-udp", Callers: 2, Srv: srvOpt{AnswerAll: true, Delay: 1300 * time.Millisecond}, CtxMode: []int{1, 1}}, pp2),
 		c02Tsys("async-tdc-udp-c2-runt", tOpt{Kind: "tdc-udp", Callers: 2, Srv: srvOpt{Reorder: true, Short: true}, CtxMode: []int{1, 1}}, p2),
 		c02Tsys("async-reuse-c2-seq2", tOpt{Kind: "reuse", Callers: 2, Seq: 2, Srv: srvOpt{CloseBudget: 1, CloseAfterAnswerOnly: true}, CtxMode: []int{1, 1}}, pp2),
 	}
